@@ -156,7 +156,7 @@ pub fn property(_tier: Tier) -> Property {
         parts: vec![Box::new(RandomPart {
             name: "roundtrip",
             rule: "proptest: 1-6 abstract responses (Single/List/Failed; keys incl. OK/list_OK/ACK/binary; values incl. keyword look-alikes, NUL, CR, multi-byte, up to 6k (thorough 20k) chars; payloads incl. protocol look-alikes and buffer-edge sizes up to 20k (40k)) on one connection, one generated segmentation, one of blocking/async/async-with-spurious-pending (1 in 4: blocking interrupted by a transient WouldBlock before every read and called again / async with every pending receive future dropped and re-created); non-trivial = keyword mimic, payload, list form with >=2 frames, error after >=1 completed frame, or >=2 responses; distinct by serialised case",
-            cases: (6_000, 400_000),
+            cases: (6_000, 150_000),
             strategy: Box::new(strategy),
             check: Box::new(check),
         }), Box::new(crate::core::ExhaustivePart {
